@@ -104,6 +104,9 @@ func genLines(t *rapid.T, cmd string) []pbt.S {
 	incs := incPool
 	if cmd == "reduce" || cmd == "reduce-serial" {
 		incs = goodIncs
+		if rapid.IntRange(0, 2).Draw(t, "emptyGroup") == 0 {
+			ks[0] = "" // a group whose key is empty (no parts) among others
+		}
 	}
 	if cmd == "analyze" {
 		incs = numPool
@@ -232,6 +235,15 @@ func gen(t *rapid.T) Case {
 			}
 		}
 		c.Accums = []string{"n={sumi {.} 1}", "sum={sumi {.} {3}}", "mx={maxi {.} {3}}"}
+		// rows ordered by a data column instead of by group name: the CSV is
+		// then written in an order in which an empty group value can follow
+		// a non-empty one (the writer reuses one row buffer)
+		switch rapid.IntRange(0, 3).Draw(t, "rsort") {
+		case 1:
+			c.Flags = append(c.Flags, "--sort", "{sum}")
+		case 2:
+			c.Flags = append(c.Flags, "--sort", "{n}", "--sort-reverse")
+		}
 	case "reduce-serial":
 		c.Extracts = []string{"{1}", "{2}", "{3}"}
 		c.Groups = []string{"k={1}"}
